@@ -27,7 +27,7 @@ SV2 = lambda: [aegen.sv('s', ('x', 'y'))]  # noqa: E731
 
 ALG_BREAKS = ['alg-base', 'no-name', 'no-deps', 'dot-alg', 'no-sv', 'sv-base',
               'val-base', 'sv-no-name', 'dot-sv', 'dot-val', 'sv-empty',
-              'unpicklable']
+              'unpicklable', 'val-ctor-arg']
 REF_BREAKS = ['ref-factory', 'ref-impl', 'ref-item', 'ref-feat',
               'ref-missing-alg', 'ref-missing-sv', 'ref-missing-val',
               'ref-not-a-ref']
@@ -315,7 +315,7 @@ def run(ctx):
         'distinct_nontrivial': len(verdicts),
         'rule': 'accept: 15 factory mixes x 3 styles (deprecated bots, self-registering, self-registering with hand-written factories) x 3 reference patterns + every rule-conforming DAG engine on '
                 '<=2 (thorough 3) algorithms; reject: every mix (pattern 1) x every applicable single breakage '
-                '(12 algorithm-level, 8 reference-level, 4 moment-level, 4 factory-level kinds) at every position; '
+                '(13 algorithm-level, 8 reference-level, 4 moment-level, 4 factory-level kinds) at every position; '
                 'distinct_nontrivial = distinct (breakage kind | mix, style, verdict) triples observed',
     }
     return common.finish(ctx, cov, exhaustive=True)
